@@ -131,9 +131,9 @@ impl FieldElement for BaseElement {
 
     #[inline]
     fn double(self) -> Self {
-        let ret = (self.0 as u128) << 1;
-        let (result, over) = (ret as u64, (ret >> 64) as u64);
-        Self(result.wrapping_sub(M * over))
+        // note: reducing 2 * x only when it overflows 64 bits is not enough, as the result
+        // may still be in the [M, 2^64) range; modular addition handles both cases
+        self + self
     }
 
     #[inline]
